@@ -125,6 +125,14 @@ func (r *Run) Pick(q, t int) int {
 	return q
 }
 
+// PickInts is Pick for menus.
+func (r *Run) PickInts(q, t []int) []int {
+	if r.Thorough() {
+		return t
+	}
+	return q
+}
+
 // Budget sets an internal wall-clock budget; Expired reports when it has passed
 // (the run then stops enumerating, records a cap and still exits 0).
 func (r *Run) Budget(d time.Duration) { r.deadline = r.start.Add(d) }
